@@ -344,6 +344,70 @@ def _loads(node, name, into_nested=True):
   return out
 
 
+def split_multi_def_temps(fnode, base_names, stats):
+  """A new local with several plain definitions `t = e` (the same temporary name reused, e.g. by two inlined copies of one helper): every
+  definition whose uses provably all sit between it and the next definition in the same block gets its own name, so that the single-definition
+  substitution applies to each."""
+  params = set(params_of(fnode))
+  order, parent = {}, {}
+
+  def dfs(n):
+    order[id(n)] = len(order)
+    for ch in ast.iter_child_nodes(n):
+      parent[id(ch)] = n
+      dfs(ch)
+  dfs(fnode)
+  names = {}
+  for n in own_nodes(fnode):
+    if isinstance(n, ast.Name) and isinstance(n.ctx, (ast.Store, ast.Del)):
+      names.setdefault(n.id, []).append(n)
+  k = 0
+  for nm, stores in sorted(names.items()):
+    if len(stores) < 2 or nm in base_names or nm in params or nm.startswith('__'):
+      continue
+    if any(isinstance(x, (ast.Global, ast.Nonlocal)) and nm in x.names for x in ast.walk(fnode)):
+      continue
+    loads = _loads(fnode, nm)
+    if len(loads) != len(_loads(fnode, nm, into_nested=False)):
+      continue       # captured by a closure
+    defs = []
+    for b in _blocks(fnode):
+      for i, st in enumerate(b):
+        if isinstance(st, ast.Assign) and len(st.targets) == 1 and isinstance(st.targets[0], ast.Name) and st.targets[0].id == nm:
+          defs.append((b, i, st))
+    if len(defs) != len(stores):
+      continue       # some other kind of binding (loop target, with-as, augmented, tuple)
+    claimed = set()
+    plan = []
+    ok = True
+    for b, i, st in defs:
+      j = len(b)
+      for q in range(i + 1, len(b)):
+        if any(isinstance(x, ast.Name) and x.id == nm and isinstance(x.ctx, (ast.Store, ast.Del)) for x in ast.walk(b[q])):
+          j = q
+          break
+      rng = b[i + 1:j]
+      mine = [u for s_ in rng for u in ast.walk(s_) if isinstance(u, ast.Name) and u.id == nm and isinstance(u.ctx, ast.Load)]
+      if j < len(b) and isinstance(b[j], ast.Assign) and len(b[j].targets) == 1 and isinstance(b[j].targets[0], ast.Name):
+        mine += [u for u in ast.walk(b[j].value) if isinstance(u, ast.Name) and u.id == nm]       # t = f(t)
+      # (every claimed use runs after this definition with no other store of the name between, in any iteration: the claims
+      #  of all definitions must partition the uses, see below)
+      if not ok or any(id(u) in claimed for u in mine):
+        ok = False
+        break
+      claimed |= set(id(u) for u in mine)
+      plan.append((st, mine))
+    if not ok or len(claimed) != len(loads):
+      continue
+    for st, mine in plan:
+      k += 1
+      new = '%s__d%d' % (nm, k)
+      st.targets[0].id = new
+      for u in mine:
+        u.id = new
+    stats['temps_split'] = stats.get('temps_split', 0) + 1
+
+
 def inline_new_temporaries(fnode, base_names, stats):
   """Forward-substitute locals that the reference tree does not know (temporaries
   introduced by splitting an expression) into their uses."""
@@ -361,6 +425,10 @@ def inline_new_temporaries(fnode, base_names, stats):
           if not b:
             b.append(ast.Pass(lineno=st.lineno, col_offset=st.col_offset))
           stats['temps'] = stats.get('temps', 0) + 1
+  try:
+    split_multi_def_temps(fnode, base_names, stats)
+  except Exception as e:
+    stats['split_temps_error'] = repr(e)
   for _round in range(8):
     changed = False
     params, locs = local_defs_fp(fnode)
@@ -369,6 +437,8 @@ def inline_new_temporaries(fnode, base_names, stats):
         continue
       if len(fps) != 1 or not fps[0].startswith('=|') or not fps[0].endswith('|'):
         continue
+      if sum(1 for n in ast.walk(fnode) if isinstance(n, ast.Name) and n.id == nm and isinstance(n.ctx, (ast.Store, ast.Del))) != 1:
+        continue     # (two definitions of the same shape have one fingerprint)
       # the single defining statement and its block
       S = blk = None
       for b in _blocks(fnode):
@@ -1437,6 +1507,52 @@ def _is_partial_call(n):
     and all(k.arg is not None for k in n.keywords)
 
 
+STRUCT_CONSTS = {}   # 'Cls.Name' -> format string of a class-level `Name = Struct('<fmt>')` (set by restore.restore_package)
+
+
+def lower_struct_consts(fnode, bsrc, stats):
+  """`Cls.Name.pack(a..)` / `.unpack(b)` / `.size` on a package constant `Name = Struct('<fmt>')` that the reference function does not mention:
+  the module-level spelling `pack('<fmt>', a..)` / `unpack('<fmt>', b)` / the constant size -- what the wire rules read.  And `calcsize('<fmt>')`
+  of a constant format with explicit byte order, when the reference function computes no size: the number."""
+  btxt = ast.unparse(bsrc)
+  for n in ast.walk(fnode):
+    for fld, v in ast.iter_fields(n):
+      vs = v if isinstance(v, list) else [v]
+      for i, x in enumerate(vs):
+        new = None
+        if isinstance(x, ast.Call) and isinstance(x.func, ast.Attribute) and x.func.attr in ('pack', 'unpack') and ast.unparse(x.func.value) in STRUCT_CONSTS \
+            and ast.unparse(x.func.value) not in btxt:
+          fmt = STRUCT_CONSTS[ast.unparse(x.func.value)]
+          new = ast.Call(func=ast.Name(id=x.func.attr, ctx=ast.Load()), args=[ast.Constant(value=fmt)] + x.args, keywords=x.keywords)
+        elif isinstance(x, ast.Attribute) and x.attr == 'size' and isinstance(x.ctx, ast.Load) and ast.unparse(x.value) in STRUCT_CONSTS and ast.unparse(x.value) not in btxt:
+          sz = _const_size(STRUCT_CONSTS[ast.unparse(x.value)])
+          if sz is not None:
+            new = ast.Constant(value=sz)
+        elif isinstance(x, ast.Call) and isinstance(x.func, ast.Name) and x.func.id == 'calcsize' and len(x.args) == 1 and not x.keywords \
+            and isinstance(x.args[0], ast.Constant) and isinstance(x.args[0].value, str) and 'calcsize' not in btxt:
+          sz = _const_size(x.args[0].value)
+          if sz is not None:
+            new = ast.Constant(value=sz)
+        if new is not None:
+          ast.copy_location(new, x)
+          if isinstance(v, list):
+            v[i] = new
+          else:
+            setattr(n, fld, new)
+          stats['struct_consts'] = stats.get('struct_consts', 0) + 1
+  ast.fix_missing_locations(fnode)
+
+
+def _const_size(fmt):
+  import struct
+  if fmt[:1] not in '!<>=':
+    return None       # native alignment: platform dependent
+  try:
+    return struct.calcsize(fmt)
+  except struct.error:
+    return None
+
+
 def apply_partials(fnode, base_names, stats):
   """functools.partial(f, a, k=v)(x)  is  f(a, x, k=v);  a local the reference does not know that is bound once to such a partial of constant
   arguments and only ever called is replaced by the call it stands for."""
@@ -1733,6 +1849,8 @@ def rename_function(fnode, rel, qualname, base_funcs, stats):
     if bsrc is not None:
       try:
         apply_partials(fnode, base_names, stats)
+        for _ in range(2):      # Struct constant -> its size -> arithmetic on sizes
+          lower_struct_consts(fnode, bsrc, stats)
         splice_starred_literals(fnode, stats)
         lower_dict_dispatch(fnode, bsrc, stats)
         lower_new_next(fnode, bsrc, stats)
@@ -1871,8 +1989,50 @@ def _tail_form_ok(body):
   return ok(body)
 
 
+def _specialise_vararg(helper, call, is_method):
+  """A helper with `*rest` that only hands `*rest` on to calls: a copy without the vararg whose pass-through positions hold the extra
+  arguments of this call (and the call without them).  Only when that keeps the evaluation order: the extras are simple, or the body is a
+  single statement that uses `*rest` once."""
+  a = helper.args
+  if a.kwarg or a.kwonlyargs or not a.vararg:
+    return None
+  rest = a.vararg.arg
+  npos = len(a.posonlyargs + a.args) - (1 if is_method else 0)
+  if any(isinstance(x, ast.Starred) for x in call.args[:npos]) or len(call.args) < npos or any(k.arg is None for k in call.keywords):
+    return None
+  extras = call.args[npos:]
+  h2 = copy.deepcopy(helper)
+  body = [s_ for s_ in h2.body if not (isinstance(s_, ast.Expr) and isinstance(s_.value, ast.Constant))]
+  uses = [n for n in ast.walk(h2) if isinstance(n, ast.Name) and n.id == rest]
+  spliced = 0
+  for c in ast.walk(h2):
+    if isinstance(c, ast.Call):
+      out = []
+      for x in c.args:
+        if isinstance(x, ast.Starred) and isinstance(x.value, ast.Name) and x.value.id == rest:
+          out.extend(copy.deepcopy(e) for e in extras)
+          spliced += 1
+        else:
+          out.append(x)
+      c.args = out
+  if spliced != len(uses):
+    return None       # used in some other way (len(rest), iteration, ...)
+  simple = all(_simple_arg(e) for e in extras)
+  if not simple and not (len(body) == 1 and spliced == 1 and not any(isinstance(n, (ast.For, ast.While, ast.If, ast.Try, ast.With)) for n in ast.walk(body[0]))):
+    return None
+  h2.args.vararg = None
+  c2 = copy.copy(call)
+  c2.args = list(call.args[:npos])
+  return h2, c2
+
+
 def inline_body(helper, call, is_method, kind, target, caller_locals, base_line=None):
   """Statements replacing a call statement. kind: 'expr' | 'assign' | 'return'."""
+  if helper.args.vararg:
+    sp = _specialise_vararg(helper, call, is_method)
+    if sp is None:
+      return None
+    helper, call = sp
   b = _bind(helper, call, is_method)
   if b is None:
     return None
@@ -1905,6 +2065,8 @@ def inline_body(helper, call, is_method, kind, target, caller_locals, base_line=
     if kind == 'expr' or value is None and kind != 'return':
       if kind == 'assign':
         return [ast.Assign(targets=copy.deepcopy(target), value=ast.Constant(value=None), **loc)]
+      if value is not None and not _is_pure(value):
+        return [ast.Expr(value=value, **loc)]      # the returned expression is still evaluated
       return []
     if kind == 'assign':
       if keep is not None and isinstance(value, ast.Name) and value.id == keep:
@@ -1954,6 +2116,8 @@ def inline_body(helper, call, is_method, kind, target, caller_locals, base_line=
         if isinstance(st, ast.Return):
           if kind != 'expr':
             out_.append(ast.Assign(targets=[ast.Name(id=rv, ctx=ast.Store())], value=st.value or ast.Constant(value=None), lineno=st.lineno, col_offset=st.col_offset))
+          elif st.value is not None and not _is_pure(st.value):
+            out_.append(ast.Expr(value=st.value, lineno=st.lineno, col_offset=st.col_offset))
           if loop_depth > 0:
             out_.append(ast.Assign(targets=[ast.Name(id=done, ctx=ast.Store())], value=ast.Constant(value=True), lineno=st.lineno, col_offset=st.col_offset))
           out_.append(ast.Break(lineno=st.lineno, col_offset=st.col_offset))
